@@ -250,26 +250,11 @@ func (e *Exec) ensureInit(pkg *ssa.Package) {
 	e.pushFrame(g, initFn, nil, nil)
 	base := g.frames[0]
 	steps := 0
+	e.cur = g
 	for g.status != GDone && len(g.frames) > 0 {
-		steps++
 		if steps > 3_000_000 {
 			e.incon = append(e.incon, "init of "+pkg.Pkg.Path()+" did not finish")
 			break
-		}
-		var curInstr ssa.Instruction
-		curIP := -1
-		var curBlock *ssa.BasicBlock
-		if len(g.frames) == 1 && !base.unwinding && base.ip < len(base.block.Instrs) {
-			curInstr = base.block.Instrs[base.ip]
-			curIP = base.ip
-			curBlock = base.block
-			// skip dependency initialisers and the guard
-			if call, ok := curInstr.(*ssa.Call); ok {
-				if callee := call.Call.StaticCallee(); callee != nil && callee.Name() == "init" && callee.Synthetic != "" && callee.Pkg != pkg {
-					base.ip++
-					continue
-				}
-			}
 		}
 		func() {
 			defer func() {
@@ -297,26 +282,39 @@ func (e *Exec) ensureInit(pkg *ssa.Package) {
 					}
 				}
 			}()
-			if curInstr != nil {
-				e.initTopInstr, e.initTopIP, e.initTopBlock = curInstr, curIP, curBlock
+			for g.status != GDone && len(g.frames) > 0 && steps <= 3_000_000 {
+				steps++
+				if len(g.frames) == 1 && !base.unwinding && base.ip < len(base.block.Instrs) {
+					curInstr := base.block.Instrs[base.ip]
+					// skip dependency initialisers
+					if call, ok := curInstr.(*ssa.Call); ok {
+						if callee := call.Call.StaticCallee(); callee != nil && callee.Name() == "init" && callee.Synthetic != "" && callee.Pkg != pkg {
+							base.ip++
+							continue
+						}
+					}
+					e.initTopInstr, e.initTopIP, e.initTopBlock = curInstr, base.ip, base.block
+				}
+				e.step(g)
+				if g.panic != nil && len(g.frames) == 1 && base.unwinding && len(base.defers) == 0 {
+					// a panic reached the initialiser: poison and continue
+					g.panic = nil
+					base.unwinding = false
+					if v, ok := e.initTopInstr.(ssa.Value); ok {
+						base.env[v] = Poison{"panic in initialiser"}
+					}
+					if base.block == e.initTopBlock && base.ip == e.initTopIP {
+						base.ip++
+					}
+				}
 			}
-			e.cur = g
-			e.step(g)
 		}()
-		if g.panic != nil && len(g.frames) == 1 && base.unwinding && len(base.defers) == 0 {
-			// a panic reached the initialiser: poison and continue
-			g.panic = nil
-			base.unwinding = false
-			if v, ok := e.initTopInstr.(ssa.Value); ok {
-				base.env[v] = Poison{"panic in initialiser"}
-			}
-			if base.block == e.initTopBlock && base.ip == e.initTopIP {
-				base.ip++
-			}
-		}
 	}
 	e.cur = savedCur
 	e.initing = savedInit
+	if os.Getenv("VERIF_INITSTATS") != "" {
+		fmt.Fprintf(os.Stderr, "init %s: %d steps\n", pkg.Pkg.Path(), steps)
+	}
 }
 
 var skipInit = map[string]bool{
